@@ -33,6 +33,42 @@ def exact_attrs(n, e_bytes, openssl='unknown', keypair='unknown'):
           'res39': [n % p for p in ROCA_P], 'res48': [n % p for p in VAR_P], 'openssl': openssl, 'keypair': keypair}
 
 
+def near_roca_keys(rng, primes_idx=None):
+  """Healthy semiprimes on the boundary of the ROCA fingerprint: p is a random 1024-bit prime, q a prime in the residue class that makes
+  n = p q a power of 65537 modulo every one of the 39 primes except one, where it is not (one key per prime that has a non-power)."""
+  M = prod(ROCA_P)
+  out = []
+  for j in (range(len(ROCA_P)) if primes_idx is None else primes_idx):
+    res, usable = [], True
+    for i, pp in enumerate(ROCA_P):
+      powers, x = set(), 1
+      while x not in powers:
+        powers.add(x)
+        x = x * 65537 % pp
+      if i == j:
+        non = [r for r in range(1, pp) if r not in powers]
+        if not non:
+          usable = False
+          break
+        res.append(rng.choice(non))
+      else:
+        res.append(rng.choice(sorted(powers)))
+    if not usable:
+      continue
+    x, m = 0, 1
+    for r, pp in zip(res, ROCA_P):
+      x += m * (((r - x) * pow(m, -1, pp)) % pp)
+      m *= pp
+    p = art.rand_prime_top2(rng, 1024)
+    q0 = x * pow(p, -1, M) % M
+    while True:
+      q = q0 + M * (rng.getrandbits(1024 - M.bit_length()) | (3 << (1022 - M.bit_length())))
+      if q.bit_length() == 1024 and gmpy2.is_prime(q):
+        break
+    out.append(('nearroca-p%d' % ROCA_P[j], p * int(q), b'\x01\x00\x01', None))
+  return out
+
+
 def fingerprint(n):
   return 'RSA-%d:%s' % (n.bit_length(), hashlib.sha1(('Modulus=%X\n' % n).encode()).hexdigest()[20:])
 
@@ -103,6 +139,7 @@ def rsa_cases(rng, quick):
     x, m = crt(res, ROCA_P)
     n = x + m * (rng.getrandbits(2048 - m.bit_length()) | (1 << (2047 - m.bit_length())))
     out.append(('almostroca-p%d' % ROCA_P[j], n, b'\x01\x00\x01', None))
+  out += near_roca_keys(rng, [0, 1, 2, 19, 23, 37, 38] if quick else None)
   # quadratic residue modulo all 48 primes without the ROCA structure: q = p mod (product of the 48 primes)
   M48 = prod(VAR_P)
   for i in range(3 if quick else 20):
